@@ -38,7 +38,7 @@ META = {
           "Requests of 8 generator classes (every function code 0..=255, header-flag combinations, unparsable objects, headers rejected for the function at first/middle/last position, no-reply functions, oversized control echoes) are injected in 4 session states; "
           "every transmitted fragment is checked: S1 solicited = request sequence(+k), UNS clear, FIR first only; S2 unsolicited = UNS+FIR+FIN+CON, consecutive numbering (retries identical); S3 no reply to CONFIRM / no-ack functions; "
           "S4 size <= configured transmit size and accepted by the reference object walker; S5 rejected request => exactly one response with an IIN2 error bit. "
-          "Part T sweeps the READ selection table: one READ per known (group, variation) x five qualifiers against a database with every point and event type; the response may carry only the requested group (nothing for groups without a point type), the requested variation, the requested range and count."),
+          "Part T sweeps the READ selection table: one READ per known (group, variation) x five qualifiers against a database with every point and event type; the response may carry only the requested group (nothing for groups without a point type), the requested variation, the requested range and count. Part L sends READs with as many and with more object headers than the configured limit, at once and deferred: whenever part of the request is dropped the response must carry an IIN2 error bit."),
     note="Which object headers count as rejected is a conservative generator list (DESIGN 5.22). READs deferred by an unsolicited confirm wait are awaited for one confirm timeout. Trusted: reference walker/table.",
  ),
  "C04": dict(
